@@ -110,8 +110,9 @@ def canonical_problem(s):
 
 class Prop:
     def __init__(self, pid, streams, ops, project, oracle=None, features=ALL_FEATURES, note="", design_ref="", configs=None,
-                 thorough_configs=None):
+                 thorough_configs=None, gen_env=None):
         self.pid = pid
+        self.gen_env = gen_env or {}
         # configs: list of (label, feature tuple); every config runs the same streams against its own harness build
         self.configs = configs or [("all", features)]
         self.thorough_configs = thorough_configs or self.configs
@@ -713,6 +714,7 @@ PROPS = {
     "C20": Prop("C20", S(["tokens"], "loc") + S(["wf", "near"], "li,loc,lican,loccan,conv,liparts,locparts") + S(["subtag"], "lang,script,region,variant")
                 + [("hist", None), ("match", None), ("rel", None), ("parts", None), ("pairs", None), ("layoutnames", None)],
                 None, proj_full, orc_c20, design_ref="4/C20",
+                gen_env={"GEN_LIKELY": "0"},     # histories without maximize/minimize: those calls exist only with the feature
                 configs=[("none", ()), ("likely", ("likely",)), ("all", ALL_FEATURES)],
                 thorough_configs=[("none", ()), ("likely", ("likely",)), ("serde", ("serde",)), ("macros", ("macros",)),
                                   ("likely-serde", ("likely", "serde")), ("likely-macros", ("likely", "macros")),
@@ -727,7 +729,7 @@ PROPS = {
 NOT_YET = {}
 
 # a property is claimed once it is listed here (its theorem file must exist and build)
-CLAIMED = ["C02", "C03", "C04", "C05", "C07", "C08", "C09", "C10", "C11", "C12", "C13", "C15", "C16", "C17", "C19"]
+CLAIMED = ["C%02d" % i for i in range(1, 21)]
 ALL_PROPS = PROPS
 PROPS = {k: v for k, v in ALL_PROPS.items()
          if k in CLAIMED or (os.environ.get("VERIF_DEV") and os.path.exists(os.path.join(R.LEAN, "UnicLocale", "Props", k + ".lean")))}
@@ -798,6 +800,7 @@ def gen_requests(harness, cfg, tier, seed, workdir):
             open(p, "w").write("\n".join(lines) + "\n")
         except KeyError:
             env = dict(os.environ)
+            env.update(cfg.gen_env)
             if ops:
                 env["GEN_OPS"] = ops
             with open(p, "w") as fo:
